@@ -60,4 +60,19 @@ PROPS = {
             "fmt %d modelled by Base/Dec.v",
         ],
     },
+    "C12": {
+        "harness": [{"cmd": "c12", "n": {"quick": 2000, "thorough": 40000}}],
+        "rule": "random 1-4 row x 0-10 column alignments over {A,C,a,-,N,n,X,x} with column-level bias (gap-rich / "
+                "N-rich / mixed, so qualifying prefixes and suffixes occur), both alphabets, cut-offs 0, 1/8 .. 1 "
+                "(dyadic: exact in binary64; exact ties abound with <=4 rows) and out-of-range -1/2, 3/2, all option "
+                "combinations, x RemoveCharacterSites / RemoveGapSites / RemoveMajorityCharacterSites / "
+                "RemoveCharacterSeqs / RemoveGapSeqs; thorough adds every 2x3 alignment over {A,-,N,n,X} with rotating "
+                "options; non-trivial = at least 2 columns; distinct = distinct (op, options, input)",
+        "nontrivial": lambda m: len(m.get("seqs", [])) >= 1 and len(m["seqs"][0]) >= 2,
+        "assumptions": [
+            "cut-offs are dyadic rationals (float64 exact); IEEE rounding of non-dyadic cut-offs is outside the model",
+            "spec oracle does not judge: a residue that is both matching and excluded, or a column/sequence whose "
+            "rows are all excluded (fraction 0/0) - there the property text does not determine the outcome",
+        ],
+    },
 }
